@@ -254,4 +254,24 @@ theorem runCmd_ok (w0 : World) (cfg inuse c) : Ok w0 (runCmd cfg inuse c) := by
             chrootMount_ok]
     all_goals nf_done
 
+/-! ### the propagation call of `fs.Mount` as a fault point of its own -/
+
+/-- flags `fs.Mount` passes with the first call -/
+def mountFlagsOf (fstype : Bytes) : Nat :=
+  if fstype == b!"bind" then Kernel.MS_BIND
+  else if fstype == b!"rbind" then Kernel.MS_BIND + Kernel.MS_REC
+  else if fstype == b!"remount" then Kernel.MS_REMOUNT else 0
+
+theorem fsMount_propagation_fault_triple (w0 : World) (src tgt fstype opts : Bytes) (kt' : Kernel.KTable)
+    (hs : (src == b!"/dev" || src == b!"/sys" || src == b!"/run") = true)
+    (hp : w0.pretend = false) (hc : w0.crashAt = none) (hf : w0.faultAt = some (w0.nops + 2))
+    (hk : Kernel.kmount w0.kt src tgt fstype (mountFlagsOf fstype) opts = .ok kt') :
+    ⦃fun w => ⌜w = w0⌝⦄ fsMount src tgt fstype opts
+    ⦃post⟨fun _ _ => ⌜False⌝, fun e w => ⌜e = .err "fault" ∧ w.kt = kt' ∧
+        w.trace = w0.trace ++ [.mount src tgt fstype (mountFlagsOf fstype) opts] ∧ w.fs = w0.fs⌝⟩⦄ := by
+  mvcgen [fsMount, gate, sysMount, record, getW, setW, fail]
+  all_goals (try subst_vars)
+  all_goals (try (simp_all (config := { zetaDelta := true }) [mountFlagsOf]))
+  all_goals (try omega)
+
 end Lc.FaultOk
